@@ -712,4 +712,40 @@ theorem conv_eq_convSpec (a b : Array Int) : conv a b = convSpec a b := by
     · rw [if_pos hp, List.getElem?_range hp]; rfl
     · rw [if_neg hp, List.getElem?_eq_none (by simpa using hp)]; rfl
 
+/-! ### `fft_inv_into` / `fft_into` accumulate; `fft(v, 0)` chooses its size -/
+
+theorem size_fftRef (A : Arith K) (m : Nat) (inv : Bool) (v : Array K) (hv : v.size = 2^m) : (fftRef A m inv v).size = 2^m := by
+  unfold fftRef
+  exact (fftCore_spec A (wC A.tw A.one m) (revC m) (2^m) m inv v hv (fun i _ => revC_lt m i) (revC_revC m) (revC_zero m)).1
+
+/-- `fft_inv_into(v, res)` adds to `res` (common prefix) exactly what `fft_inv(v)` returns — every size incl. 1, every
+    destination length, every arithmetic. -/
+theorem fftInvIntoRef_adds (A : Arith K) (m : Nat) (v : Array K) (hv : v.size = 2^m) (res : List Int) :
+    fftInvIntoRef A v res = addPrefix res (fftInvIntoRef A v (List.replicate v.size 0)) := by
+  unfold fftInvIntoRef
+  by_cases h1 : v.size = 1
+  · rw [if_pos h1, if_pos h1, h1]
+    cases res with
+    | nil => rfl
+    | cons r rs =>
+      show _ = addPrefix (r :: rs) [0 + A.roundRe (v.getD 0 A.zero)]
+      rw [addPrefix, addPrefix_nil, Int.zero_add]
+  · rw [if_neg h1, if_neg h1]
+    have hm : 1 ≤ m := by
+      cases m with
+      | zero => simp at hv; exact absurd hv h1
+      | succ m => omega
+    simp only []
+    rw [hv, Nat.log2_two_pow, two_pow_shiftRight_one m hm]
+    have hn2 : 2 * 2^(m-1) = 2^m := by
+      obtain ⟨q, rfl⟩ : ∃ q, m = q + 1 := ⟨m - 1, by omega⟩
+      rw [Nat.pow_succ]; simp; omega
+    have g1 : (foldHalfRef A A.half m v).size = 2^m := by
+      unfold foldHalfRef; exact (foldHalf_spec A A.half _ _ m hm v hv).1
+    have x1 : ((foldHalfRef A A.half m v).extract 0 (2^(m-1))).size = 2^(m-1) :=
+      (extract_spec A _ (2^(m-1)) (by rw [g1]; omega)).1
+    have hl : (roundPairs A (fftRef A (m-1) true ((foldHalfRef A A.half m v).extract 0 (2^(m-1))))).length ≤ 2^m := by
+      rw [length_roundPairs, size_fftRef A (m-1) true _ x1, hn2]; exact Nat.le_refl _
+    rw [addPrefix_zeros (2^m) _ hl res]
+
 end Rlib.Fft
